@@ -417,6 +417,31 @@ class _Expr(ast.NodeTransformer):
                 return ast.copy_location(_chain(n.slice, rows, dflt), n)
         return n
 
+    def visit_JoinedStr(self, n: ast.JoinedStr):
+        self.generic_visit(n)
+        # f"{f'x{i}'} .."  ->  f"x{i} .."   (a nested f-string / string constant interpolated without conversion or format spec -- what
+        # an inlined text helper leaves behind -- is its own pieces)
+        if any(isinstance(v, ast.FormattedValue) and v.conversion == -1 and v.format_spec is None and
+               (isinstance(v.value, ast.JoinedStr) or (isinstance(v.value, ast.Constant) and isinstance(v.value.value, str))) for v in n.values):
+            vals: list = []
+            for v in n.values:
+                if isinstance(v, ast.FormattedValue) and v.conversion == -1 and v.format_spec is None and isinstance(v.value, ast.JoinedStr):
+                    vals.extend(v.value.values)
+                elif isinstance(v, ast.FormattedValue) and v.conversion == -1 and v.format_spec is None and isinstance(v.value, ast.Constant) \
+                        and isinstance(v.value.value, str):
+                    vals.append(v.value)
+                else:
+                    vals.append(v)
+            merged: list = []
+            for v in vals:
+                if merged and isinstance(v, ast.Constant) and isinstance(merged[-1], ast.Constant):
+                    merged[-1] = ast.Constant(value=merged[-1].value + v.value)
+                else:
+                    merged.append(v)
+            self.changed = True
+            return ast.copy_location(ast.JoinedStr(values=merged), n)
+        return n
+
     def visit_Attribute(self, n: ast.Attribute):
         self.generic_visit(n)
         # result.hit  ->  result[0]   for a field of a typing.NamedTuple whose name means nothing else in the package
@@ -618,6 +643,22 @@ def _match_chain(s: ast.Match) -> Optional[ast.stmt]:
     return ast.fix_missing_locations(ast.copy_location(node[0], s))
 
 
+_SCALAR_ANN = {"int", "str", "bool", "float", "bytes", "None", "Optional", "Union", "Any", "object", "typing"}
+
+
+def _scalar_annotation(a: ast.AST) -> bool:
+    """An annotation that names builtin scalars only (`int`, `Optional[int]`, `int | None`): it tells the receiver typing nothing, so
+    `self.rd: int = rd` in a constructor is the plain assignment."""
+    for n in ast.walk(a):
+        if isinstance(n, ast.Name) and n.id not in _SCALAR_ANN:
+            return False
+        if isinstance(n, ast.Attribute) and not (isinstance(n.value, ast.Name) and n.value.id == "typing" and n.attr in _SCALAR_ANN):
+            return False
+        if isinstance(n, ast.Constant) and not (n.value is None or (isinstance(n.value, str) and n.value in _SCALAR_ANN)):
+            return False
+    return True
+
+
 class _Stmt:
     def __init__(self, tables: Tables) -> None:
         self.t = tables
@@ -630,7 +671,7 @@ class _Stmt:
             s = stmts[i]
             # x: T = v  ->  x = v   (annotations carry no behaviour) -- except in __init__, whose attribute annotations the
             # receiver typing reads
-            if isinstance(s, ast.AnnAssign) and s.value is not None and self.t.f.name != "__init__":
+            if isinstance(s, ast.AnnAssign) and s.value is not None and (self.t.f.name != "__init__" or _scalar_annotation(s.annotation)):
                 s = ast.copy_location(ast.Assign(targets=[s.target], value=s.value, lineno=s.lineno), s)
                 self.changed = True
             # T = T op V  ->  T op= V
@@ -1145,12 +1186,59 @@ def _reduce_to_loop(node) -> bool:
     node.body = rewrite_block(node.body)
     return changed[0]
 
+def _alias_locals(model, f, node) -> bool:
+    """`regs = state.register_file.registers` bound once to a plain attribute chain whose attributes are never re-bound after
+    construction anywhere in the package (so the chain denotes the same object wherever it is read): the local is written out and the
+    assignment dropped.  `registers[self.rs1]` and `state.register_file.registers[self.rs1]` are then one spelling."""
+    sites = model._attr_sites() if hasattr(model, "_attr_sites") else None
+    if sites is None or sites.get("*"):
+        return False
+    binds: dict = {}
+    for n in ast.walk(node):
+        if isinstance(n, ast.Name) and isinstance(n.ctx, (ast.Store, ast.Del)):
+            binds[n.id] = binds.get(n.id, 0) + 1
+        elif isinstance(n, (ast.Global, ast.Nonlocal)):
+            return False
+    params = set(f.params)
+    cands: dict = {}
+    for st in node.body:
+        if isinstance(st, ast.Assign) and len(st.targets) == 1 and isinstance(st.targets[0], ast.Name) and binds.get(st.targets[0].id) == 1 \
+                and st.targets[0].id not in params and isinstance(st.value, ast.Attribute):
+            chain = []
+            t = st.value
+            while isinstance(t, ast.Attribute):
+                chain.append(t.attr)
+                t = t.value
+            if not (isinstance(t, ast.Name) and (t.id in params) and binds.get(t.id, 0) == 0) or len(chain) < 2:
+                continue
+            ok = True
+            for a in chain:
+                d = sites.get(a)
+                if d is not None and (not d["init_only"]):
+                    ok = False
+                if a in {nm for k in model.classes.values() for nm in k.methods}:
+                    ok = False
+            if ok:
+                cands[st.targets[0].id] = (st, st.value)
+    if not cands:
+        return False
+
+    class T(ast.NodeTransformer):
+        def visit_Name(self, n: ast.Name):
+            if isinstance(n.ctx, ast.Load) and n.id in cands:
+                return ast.copy_location(copy.deepcopy(cands[n.id][1]), n)
+            return n
+    drop = {id(st) for st, _ in cands.values()}
+    node.body = [T().visit(st) for st in node.body if id(st) not in drop]
+    return True
+
 
 def canonicalise(model, f) -> bool:
     """Rewrite f.node in place (a copy); returns True when something changed."""
     tables = Tables(model, f)
     node = copy.deepcopy(f.node)
     named = _named_constants(model, f, node)
+    named = _alias_locals(model, f, node) or named
     if any(isinstance(n, (ast.Name, ast.Attribute)) and (getattr(n, "id", None) == "reduce" or getattr(n, "attr", None) == "reduce") for n in ast.walk(node)):
         named = _reduce_to_loop(node) or named
     ex = _Expr(tables)
